@@ -1,7 +1,7 @@
 #!/usr/bin/env python3
 """Automatic mutation run: single-token mutants of dep_logic that SURVIVE the repository's own test-suite are
 given to the relevant quick checks; the report says which were detected.  Survivors that no check detects are
-either equivalent mutants or gaps - they are listed for triage (tools/mutants_report.json).
+either equivalent mutants or gaps - they are listed for triage (/verif/mutation/slot<k>.json).
 
 usage: tools/mutate.py <slot> <nslots> [max_per_file]     (run several slots in parallel)
 """
@@ -12,17 +12,17 @@ import subprocess
 import sys
 
 FILES = {
-    "src/dep_logic/specifiers/range.py": ["C01", "C05", "C04", "C06", "C14"],
-    "src/dep_logic/specifiers/union.py": ["C01", "C05", "C06", "C04", "C14"],
+    "src/dep_logic/specifiers/range.py": ["C01", "C05", "C04", "C06", "C14", "C13", "C11"],
+    "src/dep_logic/specifiers/union.py": ["C01", "C05", "C06", "C04", "C14", "C13", "C11"],
     "src/dep_logic/specifiers/special.py": ["C01", "C05", "C13", "C19", "C04"],
     "src/dep_logic/specifiers/__init__.py": ["C04", "C17", "C06"],
     "src/dep_logic/specifiers/generic.py": ["C19", "C02"],
     "src/dep_logic/markers/single.py": ["C02", "C03", "C11", "C15", "C07", "C13"],
-    "src/dep_logic/markers/multi.py": ["C02", "C15", "C12", "C07"],
-    "src/dep_logic/markers/union.py": ["C02", "C15", "C12", "C07"],
+    "src/dep_logic/markers/multi.py": ["C02", "C15", "C12", "C07", "C14"],
+    "src/dep_logic/markers/union.py": ["C02", "C15", "C12", "C07", "C14"],
     "src/dep_logic/markers/__init__.py": ["C03", "C07", "C10"],
-    "src/dep_logic/utils.py": ["C02", "C15", "C06", "C13"],
-    "src/dep_logic/tags/tags.py": ["C08", "C16", "C18"],
+    "src/dep_logic/utils.py": ["C02", "C15", "C06", "C13", "C03", "C10"],
+    "src/dep_logic/tags/tags.py": ["C08", "C16", "C18", "C09"],
     "src/dep_logic/tags/platform.py": ["C09", "C16", "C18"],
 }
 RULES = [
@@ -70,7 +70,8 @@ def main():
     sh(f"git -C /repo worktree add -q --detach {wt} HEAD")
     env = dict(os.environ, PYTHONHASHSEED="0", PYTHONPATH=f"{wt}/src")
     results = []
-    outp = f"/tmp/mutants_slot{slot}.json"
+    os.makedirs("/verif/mutation", exist_ok=True)
+    outp = f"/verif/mutation/slot{slot}.json"
     n = 0
     for path, checks in FILES.items():
         text = open(f"{wt}/{path}").read()
